@@ -291,6 +291,13 @@ class Body:
             if t["k"] == "call":
                 yield bb, t, t["func"].get("fn")
 
+    def fn_values(self):
+        """fn descriptors of function items passed as *values* to calls (`.map(T::try_from)`)"""
+        for bb, t, fn in self.calls():
+            for a in t["args"]:
+                if a.get("k") == "const" and "fn" in a:
+                    yield bb, t, a["fn"]
+
     def calls_to(self, pred, reachable_only=True):
         out = []
         for bb, t, fn in self.calls(reachable_only):
